@@ -81,6 +81,9 @@ fn report(c: &C04Case) -> CaseReport {
     if info.red_node_in_tree_of_3 {
         rep.classes.push("red_node_in_tree_of_3plus".into());
     }
+    if info.internal_red_level {
+        rep.classes.push("internal_red_level".into());
+    }
     if info.unallocated_gap {
         rep.classes.push("unallocated_gap".into());
     }
